@@ -33,6 +33,7 @@
 # include <unistd.h>
 #endif
 #include <ctype.h>
+#include <limits.h>
 
 #ifdef HAVE_SYS_STAT_H
 # include <sys/stat.h>
@@ -315,7 +316,7 @@ static cfg_opt_t *cfg_getopt_secidx(cfg_t *cfg, const char *name,
 			}
 
 			i = strtol(title, &endptr, 0);
-			if (*endptr != '\0')
+			if (*endptr != '\0' || i > (long int)UINT_MAX)
 				i = -1;
 		} while(0);
 
